@@ -3,6 +3,7 @@ package props
 import (
 	"fmt"
 	"os"
+	"sort"
 	"time"
 
 	"github.com/containernetworking/cni/pkg/skel"
@@ -112,7 +113,9 @@ func c19DaemonJobs(tier string) []Job {
 				for _, inv := range h.invocations() {
 					brief = append(brief, inv.brief())
 				}
-				out.StateHash = hashOf(brief)
+				open := h.pmh.VerifOpenPorts()
+				sort.Strings(open)
+				out.StateHash = hashOf(brief, h.kern.Save("nat"), open)
 				switch {
 				case s.Deadlock:
 					out.Err = fmt.Errorf("deadlock")
